@@ -33,6 +33,12 @@ CLAIMED = {
  "C13": ("guard-dominance on part/proof/body checks + encoder/decoder sibling field-flow agreement + memo-key effect-set coverage + constant-table check of Merkle prefixes",
          "Decides that parts enter a part set only behind index, slot, proof and index-binding guards; that proof verification, Block.ValidateBasic and the proposal-block adoption path are complete checklists; that the header encoder covers every field and all hand-written codecs agree field by field; and that the validation memo key covers what the block hash does not. Does not decide byte-identical reassembly for arbitrary arrival orders.",
          "DESIGN.md §4 C13"),
+ "C14": ("save/load field-coverage and name-agreement of the consensus-state records, encoder/decoder sibling agreement of the validator-set codecs, content-address key covers stored fields (effect sets), one key function per record kind",
+         "Decides that the loader assigns every state field from the record the saver writes under the like-named hash, that validator-set/validator codecs carry priorities, proposer and power both ways, that a content-addressed record's key covers what it stores (flags the validators-info record keyed by a membership hash as an open finding), and that each record kind has one key function with distinct prefixes. Does not decide pruning safety or value equality over histories.",
+         "DESIGN.md §4 C14"),
+ "C15": ("guard-dominance in the frame decoder (size before allocation, CRC before unmarshal), encoder/decoder framing agreement (offsets, byte order, table, limit), kind and field coverage of the WAL/message codecs, structural guards of the end-height search and of replay/repair, ordering in rotation, lock pairing",
+         "Decides that decoding allocates only within the size limit and unmarshals only behind a matching CRC with every non-EOF failure reported as corruption; that encoder and decoder frame identically; that both codecs handle the same kinds and all fields; that the end-height search reports only exact matches and takes its shortcut only for a positive lower height; that replay ends normally only on EOF and repair stops at the first error; and rotation order. Does not decide CRC detection strength or reader positions.",
+         "DESIGN.md §4 C15"),
  "C18": ("guard-dominance (decode/validate before use, bounds checklists), failure-side ordering (peer stopped before return), nil-tolerance of callees on possibly-nil receivers, lock pairing over all paths, who-may-write of the bit-array representation",
          "Decides the structural defences against hostile peer input: recover-based containment in the receive routine, decode-then-validate dominance in all five reactors, complete per-message bound checklists (including the bit-array representation invariant and the proposal part count), capacity-guarded reassembly and framing, nil-safe use of the initial height's nil last commit, and release of every lock on every path in 17 packages. Does not decide absence of every implicit run-time panic.",
          "DESIGN.md §4 C18"),
